@@ -14,7 +14,7 @@ theorem stripL_length : ∀ {a b : List Node}, stripL a = stripL b → a.length 
 
 theorem Er_strip_other {cx : Cx} {lo hi : Nat} {k : String} {sp : Span} {ns : List String} {vs' : List Node} {n : Node}
     (h : Er cx lo hi (.other k sp ns vs') n) : ∃ sp2 vs, n = .other k sp2 ns vs ∧ vs.length = vs'.length := by
-  obtain ⟨X, Δ, eX, sX, _⟩ := h cx.base cx.ext_base
+  obtain ⟨X, Δ, eX, sX, _⟩ := h _ (BRg.refl _) cx.base cx.ext_base
   simp only [erase] at eX
   have hX : X = .other k sp ns (eraseL cx.base vs').1 := by
     have := congrArg Prod.fst eX; simpa using this.symm
@@ -34,7 +34,7 @@ theorem Er_strip_other {cx : Cx} {lo hi : Nat} {k : String} {sp : Span} {ns : Li
 
 theorem Er_strip_member {cx : Cx} {lo hi : Nat} {o' p' : Node} {sp : Span} {n : Node}
     (h : Er cx lo hi (.member o' p' sp) n) : ∃ o p sp2, n = .member o p sp2 := by
-  obtain ⟨X, Δ, eX, sX, _⟩ := h cx.base cx.ext_base
+  obtain ⟨X, Δ, eX, sX, _⟩ := h _ (BRg.refl _) cx.base cx.ext_base
   simp only [erase] at eX
   have hX : X = .member (erase cx.base o').1 (erase (erase cx.base o').2 p').1 sp := by
     have := congrArg Prod.fst eX; simpa using this.symm
@@ -76,9 +76,11 @@ theorem pairEr_paren {cx : Cx} {lo hi : Nat} {a ao ta oa : Node} {psp : Span} {s
     PairEr cx lo hi (.paren a psp) ao (.paren ta psp) oa s s1 := by
   obtain ⟨c1, P1⟩ := h
   refine ⟨c1, ?_⟩
-  intro σ hσ
-  obtain ⟨Ta, Δa, eTa, sTa, wa, Ra⟩ := P1 σ hσ
-  refine ⟨.paren Ta psp, Δa, by rw [erase_paren_loose _ _ _ hl, eTa], ?_, wa, Ra⟩
+  intro tk'' htk σ hσ
+  obtain ⟨ta'', rfl, hta⟩ := htk.paren_inv
+  obtain ⟨Ta, Δa, eTa, sTa, wa, Ra⟩ := P1 ta'' hta σ hσ
+  have hl' : (ta''.span == psp) = false := by rw [BRg.span _ _ hta]; exact hl
+  refine ⟨.paren Ta psp, Δa, by rw [erase_paren_loose _ _ _ hl', eTa], ?_, wa, Ra⟩
   exact ⟨by simp only [strip, sTa.1], Or.inl rfl, by simp [noSp, unSpread]⟩
 
 theorem span_splitTarget (sp : Span) : ∀ (left : Node) (s : St), (splitMemberTarget left sp s).1.1.span = left.span := by
@@ -119,7 +121,7 @@ theorem splitMemberTarget_Er (cx : Cx) (lo hi : Nat) (sp : Span) : ∀ (left' le
         have h2 := splitProp_Er cx lo hi prop' prop sp s hw (hEp.er cx) hDp
         generalize splitProp prop' sp s = R2 at h2 ⊢
         obtain ⟨⟨tprop, oprop⟩, s2⟩ := R2
-        exact pairEr_two (fun a b => .member a b sp2) (hW_member sp2) (hS_member sp2) hw h1 h2
+        exact pairEr_two (fun a b => .member a b sp2) (hW_member sp2) (hS_member sp2) (hWi_member sp2) hw h1 h2
       · simp only [run_bind, run_pure]
         have h1 := hoistTargetPart_Er cx lo hi obj' obj sp s hw (hEo.er cx)
         generalize hoistTargetPart obj' sp s = R1 at h1 ⊢
@@ -127,7 +129,7 @@ theorem splitMemberTarget_Er (cx : Cx) (lo hi : Nat) (sp : Span) : ∀ (left' le
         have h2 := splitProp_Er cx lo hi prop' prop sp s1 (hw.mono h1.1) (hEp.er cx) hDp
         generalize splitProp prop' sp s1 = R2 at h2 ⊢
         obtain ⟨⟨tprop, oprop⟩, s2⟩ := R2
-        exact pairEr_two (fun a b => .member a b sp2) (hW_member sp2) (hS_member sp2) hw h1 h2
+        exact pairEr_two (fun a b => .member a b sp2) (hW_member sp2) (hS_member sp2) (hWi_member sp2) hw h1 h2
     · simp only [run_pure]
       exact ⟨_, pairEr_same s hw hE⟩
   · rename_i ssp sup' prop'
@@ -143,7 +145,7 @@ theorem splitMemberTarget_Er (cx : Cx) (lo hi : Nat) (sp : Span) : ∀ (left' le
         generalize splitProp prop' sp s = R2 at h2 ⊢
         obtain ⟨⟨tprop, oprop⟩, s2⟩ := R2
         exact ⟨_, pairEr_two (fun a b => .other "SuperPropExpression" sp2 ["obj", "property"] [a, b])
-          (hW_other2 _ _ _) (hS_other2 _ _ _) hw h1 h2⟩
+          (hW_other2 _ _ _) (hS_other2 _ _ _) (hWi_other2 _ _ _) hw h1 h2⟩
     · simp only [run_pure]
       exact ⟨_, pairEr_same s hw hE⟩
   · rename_i inner' psp
